@@ -87,10 +87,6 @@ var passTable = []passSpec{
 	{"C16,C04", "util", "(*tlv8Container).SetString", 1, nil, "stores the string it was given"},
 	{"C16,C04", "util", "(*tlv8Container).SetByte", 0, nil, "stores under the tag it was given"},
 	// --- storage and database (C18; C19 shares the path function)
-	{"C18", "util", "(*fileStorage).Get", 0, nil, "opens the file of the key it was given"},
-	{"C18", "util", "(*fileStorage).fileForRead", 0, nil, "opens the file of the key it was given"},
-	{"C18", "util", "(*fileStorage).Delete", 0, nil, "removes the file of the key it was given"},
-	{"C18", "util", "(*fileStorage).filePathToFile", 0, []string{"removeInvalidFileNameCharacters"}, "the path is made of the key it was given"},
 	{"C18", "util", "NewFileStorage", 0, []string{"Abs"}, "creates and uses the directory it was given"},
 	{"C18", "db", "NewDatabase", 0, nil, "opens the directory it was given"},
 	{"C18", "db", "(*database).entityForKey", 0, []string{"Get", "TrimSuffix"}, "reads the key it was given and takes the name from it"},
@@ -110,7 +106,7 @@ var passTable = []passSpec{
 	{"C09,C10", "characteristic", "(*Characteristic).onValueUpdateFromConn", 1, nil, "callbacks receive the connection"},
 	{"C09,C10", "characteristic", "(*Characteristic).onValueUpdateFromConn", 2, nil, "callbacks receive the new value"},
 	{"C09,C10", "characteristic", "(*Characteristic).onValueUpdateFromConn", 3, nil, "callbacks receive the old value"},
-	{"C09", "characteristic", "(*Bytes).SetValue", 0, nil, "stores the bytes it was given"},
+	{"C09", "characteristic", "(*Bytes).SetValue", 0, []string{"base64FromBytes", "EncodeToString"}, "stores the bytes it was given"},
 	{"C09", "characteristic", "base64FromBytes", 0, []string{"EncodeToString"}, "encodes the bytes it was given"},
 	{"C09", "hap/http", "JSONEncode", 0, nil, "encodes the value it was given"},
 	{"C09", "hap/http", "JSONDecode", 1, nil, "decodes into the value it was given"},
@@ -156,7 +152,12 @@ func passThroughOne(c *core.Ctx, sp passSpec) {
 	f := p.Func(sp.rel, sp.fn)
 	key := fmt.Sprintf("passes-through:%s#%d", sp.fn, sp.param)
 	if f == nil || f.Blocks == nil {
-		c.Undecided(key, token.NoPos, "function not found")
+		// the forwarder is gone (inlined into its callers, merged with a neighbour): nothing forwards, the callers are seen directly
+		c.Note(key, token.NoPos, "the function does not exist on this tree: no forwarder, no obligation")
+		return
+	}
+	if !p.SameSignatureAsReference(f) {
+		c.Note(key, f.Pos(), "the function has another parameter list than the one the table was written for: not examined")
 		return
 	}
 	idx := sp.param
@@ -164,7 +165,7 @@ func passThroughOne(c *core.Ctx, sp passSpec) {
 		idx++
 	}
 	if idx >= len(f.Params) {
-		c.Undecided(key, f.Pos(), "the function no longer has this parameter")
+		c.Note(key, f.Pos(), "the function no longer has this parameter: not examined")
 		return
 	}
 	P := f.Params[idx]
@@ -312,12 +313,33 @@ func passThroughOne(c *core.Ctx, sp passSpec) {
 	var calls []callSite
 	received := 0
 	var transformed ssa.Instruction
-	check := func(name string, v ssa.Value, at ssa.Instruction) {
+	var check func(name string, v ssa.Value, at ssa.Instruction)
+	check = func(name string, v ssa.Value, at ssa.Instruction) {
 		if !wantSink(name) {
 			return
 		}
 		if unchanged(v, 0) {
 			received++
+			return
+		}
+		// a merged variable ( converted = f / current / v ): each incoming value by itself
+		if ph, ok := v.(*ssa.Phi); ok {
+			seen := map[ssa.Value]bool{}
+			var each func(x ssa.Value, depth int)
+			each = func(x ssa.Value, depth int) {
+				if seen[x] || depth > 6 {
+					return
+				}
+				seen[x] = true
+				if q, isPhi := x.(*ssa.Phi); isPhi {
+					for _, e := range q.Edges {
+						each(e, depth+1)
+					}
+					return
+				}
+				check(name, x, at)
+			}
+			each(ph, 0)
 			return
 		}
 		if depends(v, 0) && transformed == nil {
@@ -344,7 +366,7 @@ func passThroughOne(c *core.Ctx, sp passSpec) {
 			check("send", x.X, i)
 		case *ssa.BinOp:
 			// comparisons are sinks only where the table asks for them
-			if len(sp.sinks) > 0 && (x.Op == token.EQL || x.Op == token.NEQ) {
+			if len(sp.sinks) > 0 && (x.Op == token.EQL || x.Op == token.NEQ) && types.Identical(x.X.Type(), P.Type()) {
 				check("compare", x.X, i)
 				check("compare", x.Y, i)
 			}
